@@ -382,7 +382,95 @@ class ImportSpec(Spec):
                 'nontrivial': kind != 'good' or pre != 'absent'}
 
 
+UNDER_TEST = {
+    'benign': 'X = 1\n',
+    # the "unbuffered / re-encoded stdout" idiom executed at import time
+    'wraps_stdout': ('import sys\nclass Unbuffered(object):\n    def __init__(self, s):\n        self.s = s\n'
+                     '    def write(self, t):\n        self.s.write(t)\n        return len(t)\n'
+                     '    def flush(self):\n        pass\nsys.stdout = Unbuffered(sys.stdout)\n'),
+    'prints': 'print("imported")\n',
+}
+
+
+class ModuleUnderTestSpec(Spec):
+    """the doctest belongs to a real module file which run() imports on its way (after it has created its capture, before
+    the first part starts): import-time code that wraps sys.stdout (the stream the library captures and restores) must not change what the stream is
+    after the run - the run gives back the object it found.  (sys.stderr is never touched by the library: a module or doctest
+    body that replaces it is outside the quantifier of the property, which names bodies that replace sys.stdout.)"""
+    prop = 'C12'
+    name = 'module-under-test'
+    title = 'process globals after running a doctest whose module replaces the standard streams at import time'
+    TERMS = ['pass', 'mismatch', 'exc', 'expexc', 'skip', 'sysexit', 'exit']
+    PREFIXES = ['none', 'prints', 'swapout']
+    max_len = 6
+
+    def __init__(self):
+        self.rule = ('full product of module %r x body prefix %r x terminating event %r x on_error x verbosity {0, 3} x '
+                     '{first import, module imported before}; sys.stdout / sys.stderr / sys.path / warning filters / loops as '
+                     'found; non-trivial = the module touches a stream' % (list(UNDER_TEST), self.PREFIXES, self.TERMS))
+
+    def histories(self, stats):
+        for m in UNDER_TEST:
+            for p in self.PREFIXES:
+                for t in self.TERMS:
+                    for oe in ('return', 'raise'):
+                        for v in (0, 3):
+                            for again in (False, True):
+                                yield (m, p, t, oe, v, again)
+
+    def hist_cost(self, hist):
+        return 0
+
+    def run_case(self, hist):
+        m, prefix, term, on_error, verbose, again = hist
+        lines = PREFIX[prefix] + TERM[term]
+        from xdoctest.doctest_example import DocTest
+        atoms = []
+        with harness.scratch_dir('c12m') as d:
+            modsrc = UNDER_TEST[m]
+            modname = harness.unique_modname('m12u', modsrc + repr(hist))
+            path = os.path.join(d, modname + '.py')
+            with open(path, 'w') as f:
+                f.write(modsrc)
+            sink, esink = io.StringIO(), io.StringIO()
+            saved_out, saved_err = sys.stdout, sys.stderr
+            outer_path = list(sys.path)
+            how = None
+            try:
+                for rnd in range(2 if again else 1):
+                    t = DocTest('\n'.join(lines), modpath=path, callname='f')
+                    t.mode = 'native'
+                    t.config['colored'] = False
+                    sys.stdout, sys.stderr = sink, esink
+                    before = snap()
+                    try:
+                        t.run(on_error=on_error, verbose=verbose)
+                        how = 'returned'
+                    except BaseException as ex:
+                        if type(ex).__name__ == 'CaseTimeout':
+                            raise
+                        how = 'raised:' + type(ex).__name__
+                    bad = diff(before, snap())
+                    restore(before)
+                    for k in bad:
+                        atoms.append({'sig': 'leak:%s:module-%s' % (k, m),
+                                      'msg': '%s changed by run(on_error=%s, verbose=%d) (%s, %s run of a doctest of a module that holds %r); doctest:\n%s' % (
+                                          k, on_error, verbose, how, 'second' if rnd else 'first', modsrc, '\n'.join(lines))})
+            finally:
+                sys.stdout, sys.stderr = saved_out, saved_err
+                sys.path[:] = outer_path
+                harness.forget_modules(modname)
+        seen = set()
+        uniq = []
+        for a in atoms:
+            if a['sig'] not in seen:
+                seen.add(a['sig'])
+                uniq.append(a)
+        return {'atoms': uniq, 'outcome': how, 'case': {'doctest': '\n'.join(lines), 'module': UNDER_TEST[m], 'on_error': on_error,
+                                                      'verbose': verbose}, 'nontrivial': int(m.startswith('wraps'))}
+
+
 def specs(tier):
     if tier == 'thorough':
-        return [OutcomeSpec(), OutcomeSpec(prefix_pairs=True), AfterPoisonSpec(), ImportSpec()]
-    return [OutcomeSpec(), AfterPoisonSpec(), ImportSpec()]
+        return [OutcomeSpec(), OutcomeSpec(prefix_pairs=True), AfterPoisonSpec(), ImportSpec(), ModuleUnderTestSpec()]
+    return [OutcomeSpec(), AfterPoisonSpec(), ImportSpec(), ModuleUnderTestSpec()]
